@@ -294,7 +294,7 @@ def handler(case, payload):
     global PRIM, PDATA
     PRIM = [0, 0]                                      # a fresh counter per case (mk_data reads the global)
     PDATA = [0]
-    ctx = Ctx(case, [])
+    ctx = long_lived(Ctx, case, [])
     net = ctx.network
     scripts = [mk_script(s) for s in case['scripts']]
     res = {'script_hashes': [script_hash(s).payload.hex() for s in scripts], 'dflt': DFLT}
